@@ -1,79 +1,8 @@
 package net
 
 import (
-	"errors"
-	"io"
-	stdnet "net"
-	"time"
-
 	vp "github.com/Tnze/go-mc/internal/zzvp"
 )
-
-var vpErrInjected = errors.New("vp: injected failure")
-
-// vpFaultConn: reads deliver at most chunk bytes, the stream ends (EOF) or
-// fails at offset failAt; writes fail after wlimit accepted bytes.
-type vpFaultConn struct {
-	in     []byte
-	pos    int
-	chunk  int
-	once   bool // one multi-byte read, any of them, is cut short anywhere
-	failAt int
-	eof    bool
-	out    []byte
-	wlimit int
-}
-
-func (c *vpFaultConn) Read(p []byte) (int, error) {
-	if len(p) == 0 {
-		return 0, nil
-	}
-	lim := len(c.in)
-	if c.failAt >= 0 && c.failAt < lim {
-		lim = c.failAt
-	}
-	if c.pos >= lim {
-		if lim < len(c.in) && !c.eof {
-			return 0, vpErrInjected
-		}
-		return 0, io.EOF
-	}
-	n := lim - c.pos
-	if n > len(p) {
-		n = len(p)
-	}
-	if c.chunk > 0 && n > c.chunk {
-		n = c.chunk
-	}
-	if c.once && n > 1 {
-		if k := vp.Choice(n); k > 0 {
-			n, c.once = k, false
-		}
-	}
-	copy(p, c.in[c.pos:c.pos+n])
-	c.pos += n
-	return n, nil
-}
-
-func (c *vpFaultConn) Write(p []byte) (int, error) {
-	room := c.wlimit - len(c.out)
-	if c.wlimit < 0 || room >= len(p) {
-		c.out = append(c.out, p...)
-		return len(p), nil
-	}
-	if room < 0 {
-		room = 0
-	}
-	c.out = append(c.out, p[:room]...)
-	return room, vpErrInjected
-}
-
-func (c *vpFaultConn) Close() error                       { return nil }
-func (c *vpFaultConn) LocalAddr() stdnet.Addr             { return nil }
-func (c *vpFaultConn) RemoteAddr() stdnet.Addr            { return nil }
-func (c *vpFaultConn) SetDeadline(t time.Time) error      { return nil }
-func (c *vpFaultConn) SetReadDeadline(t time.Time) error  { return nil }
-func (c *vpFaultConn) SetWriteDeadline(t time.Time) error { return nil }
 
 // RCON packets: fragmentation invariance, truncation/failure at every offset
 // is an error, a failing writer is reported.
